@@ -5,7 +5,7 @@ From Martian.C02 Require Import Model.
 Import ListNotations.
 
 Ltac case_req q :=
-  destruct q as [md qb rt sb cl]; destruct md, qb, rt, sb, cl.
+  destruct q as [md qh qe qs rt sh se cl]; destruct md, qh, qe, qs, rt, sh, se, cl.
 
 Definition reqs_ge (b : nat) (e : event) : bool :=
   match ev_req e with Some r => Nat.leb b r | None => true end.
